@@ -19,7 +19,7 @@ namespace {
 struct WPre { bool params_ok; int first_fail; int nwith; };
 
 template <class MockType>
-void do_call(MockType& m, int fn, int a0, int a1, Obs& o, int& argcell, std::string& strarg, const Tracked*& tracked) {
+void do_call(MockType& m, int fn, int a0, int a1, Obs& o, int& argcell, std::string& strarg, const Tracked*& tracked, std::vector<int>& vecarg) {
   switch (fn) {
     case FN_F1: o.value = m.f(a0); o.outcome = OC_RET_INT; break;
     case FN_F2: o.value = m.f(a0, a1); o.outcome = OC_RET_INT; break;
@@ -30,6 +30,7 @@ void do_call(MockType& m, int fn, int a0, int a1, Obs& o, int& argcell, std::str
     case FN_S: { strarg = std::to_string(a0); o.sval = m.s(strarg); o.outcome = OC_RET_STR; break; }
     case FN_K: { argcell = a0; const MockType& cm = m; const int& r = cm.k(argcell); o.refaddr = &r; o.outcome = OC_RET_REF; break; }  // value read later, only through an address we trust
     case FN_Z: m.z(); o.outcome = OC_RET_VOID; break;
+    case FN_V: { vecarg = {a0, a0 + 1, a0}; m.v(vecarg); o.outcome = OC_RET_VOID; break; }
     default: break;
   }
 }
@@ -38,6 +39,7 @@ void do_call(MockType& m, int fn, int a0, int a1, Obs& o, int& argcell, std::str
 std::string ExecImpl::arg_text(int fn, int value) const {
   char k = fn_desc(fn).argk;
   if (k == 'u') return " == <object>";
+  if (k == 'v') return " == { " + std::to_string(value) + ", " + std::to_string(value + 1) + ", " + std::to_string(value) + " }";
   return " == " + std::to_string(value);
 }
 
@@ -50,7 +52,7 @@ std::string ExecImpl::param_text(const MExp& e, int i, bool& negated) const {
   switch (m.kind) {
     case MK_ANY: return " matching _";
     case MK_TYPEDANY:
-      return std::string(" matching ANY(") + (k == 'i' ? "int" : k == 'r' ? "int&" : k == 'c' ? "const int&" : k == 's' ? "std::string&" : "std::unique_ptr<sim::Tracked>") + ")";
+      return std::string(" matching ANY(") + (k == 'i' ? "int" : k == 'r' ? "int&" : k == 'c' ? "const int&" : k == 's' ? "std::string&" : k == 'v' ? "const std::vector<int>&" : "std::unique_ptr<sim::Tracked>") + ")";
     case MK_VAL: case MK_EQ: return " == " + v;
     case MK_NE: return " != " + v;
     case MK_LT: return " < " + v;
@@ -59,6 +61,15 @@ std::string ExecImpl::param_text(const MExp& e, int i, bool& negated) const {
     case MK_GE: return " >= " + v;
     case MK_NOTEQ: negated = true; return " == " + v;
     case MK_ANYOF: return " to be any of { " + v + ", " + std::to_string(e.v[m.vi] + 2) + " }";
+    case MK_RINC2: return " range has {" + v + ", " + v + " }";
+    case MK_RINC11: return " range has {" + v + ", " + std::to_string(e.v[m.vi] + 1) + " }";
+    case MK_RIS: return " range is {" + v + ", " + std::to_string(e.v[m.vi] + 1) + ", " + v + " }";
+    case MK_RSTART: return " range starts with {" + v + " }";
+    case MK_RENDS: return " range ends with {" + std::to_string(e.v[m.vi] + 1) + ", " + v + " }";
+    case MK_RPERM: return " range is permutation of {" + std::to_string(e.v[m.vi] + 1) + ", " + v + ", " + v + " }";
+    case MK_RALL: return " range is all >= " + v;
+    case MK_RNONE: return " range is none == " + v;
+    case MK_RANY: return " range is any == " + v;
   }
   return "?";
 }
@@ -188,14 +199,14 @@ void ExecImpl::op_call(const Op& op) {
   std::vector<int> newly_busy;
   for (int id : mset) if (busy_exps.insert(id).second) newly_busy.push_back(id);
   bool mock_newly_busy = busy_mocks.insert(mock).second;
-  int argcell = 0; std::string strarg; const Tracked* tracked = nullptr;
+  int argcell = 0; std::string strarg; const Tracked* tracked = nullptr; std::vector<int> vecarg;
   long copies0 = Tracked::copies;
   const int top_tracer = M.tracers.empty() ? -1 : M.tracers.back();
   const int gen = M.ok_gen;
   try {
     RMock& r = rmocks[static_cast<size_t>(mock)];
-    if (r.kind) do_call(*r.m, fn, args[0], args[1], o, argcell, strarg, tracked);
-    else do_call(*r.a, fn, args[0], args[1], o, argcell, strarg, tracked);
+    if (r.kind) do_call(*r.m, fn, args[0], args[1], o, argcell, strarg, tracked, vecarg);
+    else do_call(*r.a, fn, args[0], args[1], o, argcell, strarg, tracked, vecarg);
   }
   catch (fatal_report const&) { o.outcome = OC_THREW_FATAL; }
   catch (clause_fault const&) { o.outcome = OC_THREW_FAULT; }
@@ -256,6 +267,7 @@ void ExecImpl::op_call(const Op& op) {
     std::string p = base;
     if (snap_sensitive) p += ",C09";
     if (cat == FORBIDDEN) p += ",C07";
+    if (cat == FORBIDDEN && cand >= 0 && M.exps[static_cast<size_t>(cand)].sd().runtime_bounds()) p += ",C03";   // RT_TIMES(0): "handles exactly min(n, H)"
     if (cat == SEQ || (cat == ACCEPT && any_seq)) p += ",C05";
     if (cat == NOMATCH && !want.empty() && !want[0].sat_list.empty()) p += ",C03";
     for (auto& r : o.reports) {
@@ -378,7 +390,7 @@ void ExecImpl::op_call(const Op& op) {
         return;
       }
       if (c.kind == 'S' || (d.rk != RK_THROW_STD && d.rk != RK_THROW_INT)) {
-        const void* wantaddr = (fn == FN_R || fn == FN_K) ? static_cast<const void*>(&argcell) : fn == FN_S ? static_cast<const void*>(&strarg) : fn == FN_U ? static_cast<const void*>(tracked) : nullptr;
+        const void* wantaddr = (fn == FN_R || fn == FN_K) ? static_cast<const void*>(&argcell) : fn == FN_S ? static_cast<const void*>(&strarg) : fn == FN_U ? static_cast<const void*>(tracked) : fn == FN_V ? static_cast<const void*>(&vecarg) : nullptr;
         if (wantaddr && c.a1 != wantaddr) { fail("C09", "alias", std::string("_1 in clause ") + c.kind + std::to_string(c.k) + " of " + describe_exp(cand) + " does not alias the caller's argument"); return; }
         if (!wantaddr) { if (seen_a1 && c.a1 != seen_a1) { fail("C09", "alias_stable", "_1 has different addresses in different clauses of one call"); return; } seen_a1 = c.a1; }
       }
